@@ -592,8 +592,17 @@ class C06(Prop):
                     names.append(n)
                     base.append(n[rng.randrange(len(n) + 1):] if n else [])
             longs.append("E Dns " + G.canon(name_seq_msg(names)))
+        # labels containing '.', labels that are concatenations of other labels, UTF-8 labels: name identity is
+        # label-wise, so these must never be merged with names that merely print alike
+        tricky = []
+        tpool = [[b"a.b", b"c"], [b"a", b"b", b"c"], [b"a", b"b.c"], [b"ab", b"c"], [b"a", b"bc"], [b"a.b.c"], [b"A.B", b"C"],
+                 [b"a", b"B", b"c"], ["é".encode(), b"c"], ["É".encode(), b"c"], [b"c"], [b"b", b"c"], [b"b.c"], [b".", b"c"], [b"a\x00", b"c"], [b"a", b"c"]]
+        for combo in itertools.product(range(len(tpool)), repeat=2):
+            tricky.append("E Dns " + G.canon(name_seq_msg([tpool[i] for i in combo])))
+        for _ in range(300 if tier == "quick" else 3000):
+            tricky.append("E Dns " + G.canon(name_seq_msg([rng.choice(tpool) for _ in range(rng.choice([3, 4, 6]))])))
         return [("exhaustive<=3-names", ex), ("random-sequences", rnd), ("nesting-1..64", nest),
-                ("around-0x3FFF", edge), ("long-sequences", longs)]
+                ("around-0x3FFF", edge), ("long-sequences", longs), ("label-boundaries", tricky)]
 
     def oracle(self, case, line):
         return encode_oracle(case, line, expect_ok=True)
@@ -911,10 +920,23 @@ class C14(Prop):
         dec = []
         for c in S.structured_d(rng, n) + S.byte_level_d(rng, n // 4):
             dec.append("R %d %d %s" % (reps, rng.choice([1, 4, 16]), c))
-        return [("encode-repeated", enc), ("encode-name-heavy-16-threads", heavy), ("decode-repeated", dec)]
+        # names straddling the pointer limit 0x3FFF: several suffixes of ONE name go through the local table, the place
+        # where a seed-dependent iteration order could show
+        edge = []
+        for delta in range(-40, 8, 4):
+            spacer = 0x3FFF + delta - 23
+            names = [[b"l0", b"l1", b"l2", b"l3", b"l4", b"l5", b"l6", b"l7", b"zone", b"example"],
+                     [b"x", b"l1", b"l2", b"l3", b"l4", b"l5", b"l6", b"l7", b"zone", b"example"],
+                     [b"y", b"l3", b"l4", b"l5", b"l6", b"l7", b"zone", b"example"], [b"z", b"l6", b"l7", b"zone", b"example"],
+                     [b"w", b"zone", b"example"], [b"v", b"example"]]
+            edge.append("R %d 16 E Dns %s" % (max(reps, 64), G.canon(name_seq_msg(names, spacer))))
+        return [("encode-repeated", enc), ("encode-name-heavy-16-threads", heavy), ("decode-repeated", dec),
+                ("encode-straddling-0x3FFF-16-threads", edge)]
 
     def view(self, case, line):
-        return line
+        # determinism is the property: compare how many distinct results there were and whether the input
+        # was left unchanged, not the result itself (that is the business of the codec properties)
+        return line.split(" first=")[0]
 
     def oracle(self, case, line):
         if "PANIC" in line.split(" first=")[0]:
